@@ -252,6 +252,9 @@ def run(ck: Checker) -> None:
     ck.guard("R-REG-FRESH", lambda: r_reg_fresh(ck))  # a copy is registered under an id no registered node holds
     ck.guard("R-REPLACE-FORM", lambda: r_replace_form(ck))
     ck.guard("R-REPLACE-FORM", lambda: r_postinit_derived(ck))
+    ck.guard("R-REINSTALL", lambda: T.r_reinstall(ck))  # duplicate copies the children the class itself declares (no accessor inherited from a base class)
+    from . import state_rules as S_
+    ck.guard("R-REPLACE-FORM", lambda: S_.r_unstable_key(ck, "R-REPLACE-FORM", [(NODE, "ASTNode.replace"), (NODE, "ASTNode.duplicate")], "a copy is made from the node as it is now"))
     # a replacement takes the id a fresh construction would take now: the unique-id helper looks at the registry only
     from .c03 import r_unique_id_state
     ck.guard("R-ID-DET", lambda: r_unique_id_state(ck))
